@@ -48,7 +48,11 @@ def mk_ops(rng, B, rem_bits, leafs, which=None):
             ints = [int(c) for c in s]
             for fname, mk in (('list', lambda ints=ints: list(ints)), ('tuple', lambda ints=ints: tuple(ints)), ('generator', lambda ints=ints: (x for x in ints)),
                               ('map', lambda s=s: map(int, s)), ('iterator', lambda ints=ints: iter(ints)), ('filter', lambda ints=ints: filter(lambda x: True, ints))):
-                add(f'store_bits({fname})', lambda b, mk=mk: b.store_bits(mk()), s, may_refuse=True)
+                add(f'store_bits({fname})', lambda b, mk=mk: b.store_bits(mk()), s)      # store_bits takes Iterable[int]: a fitting iterator must be stored
+            # a bit string with blanks / underscores between the digits (bitarray ignores them): they are not bits and take no room
+            if n >= 2:
+                spaced = s[:n // 2] + rng.choice([' ', '_', '\n', ' _ ']) + s[n // 2:] + rng.choice(['', ' ', '\n'])
+                add('store_bits(str with blanks)', lambda b, spaced=spaced: b.store_bits(spaced), s)
         if n % 8 == 0 and n // 8 <= 130:
             by = rng.randbytes(n // 8)
             add('store_bytes', lambda b, by=by: b.store_bytes(by), rc.bytes_to_bits(by))
@@ -169,6 +173,9 @@ def ref_ops(rng, B, leafs):
     ops.append(Op('store_maybe_ref(cell)', lambda b: b.store_maybe_ref(leafs[1]), '1', 1))
     ops.append(Op('store_dict(cell)', lambda b: b.store_dict(leafs[1]), '1', 1))
     ops.append(Op('store_snake_bytes(needs ref)', lambda b: b.store_snake_bytes(b'x' * 200), None, 1))
+    import array as _array
+    ops.append(Op('store_snake_bytes(array H, needs ref)', lambda b: b.store_snake_bytes(_array.array('H', [0x7878] * 100)), None, 1))
+    ops.append(Op('store_snake_bytes(memoryview cast I, needs ref)', lambda b: b.store_snake_bytes(memoryview(b'x' * 200).cast('I')), None, 1))
     return ops
 
 
